@@ -1,7 +1,7 @@
 SPECIFICATION Spec
 CONSTANTS
   NameMask = 7
-  Family = "lemmaq"
+  Family = "neg"
   MaxKeys = 2
   Defect = "leb128"
 INVARIANT OrderInv
